@@ -6,6 +6,7 @@ CONSTANTS
   Encodings = {"parquet", "json"}
   MaxCrashes = 2
   WithDrop = FALSE
+  ClearOffEarly = FALSE
 VIEW View
 INVARIANT TypeOK
 INVARIANT ImportedEqualsExportedCarried
